@@ -839,7 +839,9 @@ func (m *Nitro) Visitor(snap *Snapshot, callb VisitorCallback, shards int, concu
 			if tmpIter.Valid() {
 				prevItm := pivotItems[len(pivotItems)-1]
 				// Find bigger item than prev pivot
-				if prevItm == nil || m.insCmp(unsafe.Pointer(itm), unsafe.Pointer(prevItm)) > 0 {
+				// Shards are key ranges: a pivot must have a bigger key than the
+				// previous one (another version of the same key is not a new pivot)
+				if prevItm == nil || m.iterCmp(unsafe.Pointer(itm), unsafe.Pointer(prevItm)) > 0 {
 					pivotItems = append(pivotItems, itm)
 				}
 			}
@@ -877,7 +879,9 @@ func (m *Nitro) Visitor(snap *Snapshot, callb VisitorCallback, shards int, concu
 				}
 			loop:
 				for ; itr.Valid(); itr.Next() {
-					if endItem != nil && m.insCmp(itr.GetNode().Item(), unsafe.Pointer(endItem)) >= 0 {
+					// Each shard starts by key, so it has to end by key as well: the
+					// visible version of the end key belongs to the next shard
+					if endItem != nil && m.iterCmp(itr.GetNode().Item(), unsafe.Pointer(endItem)) >= 0 {
 						break loop
 					}
 
